@@ -2,7 +2,7 @@
 """Confirm seeded mutations: in a scratch worktree of /repo's HEAD, (1) the patch applies, (2) the 33 baseline tests
 still pass with it, (3) the demo FAILs with it and PASSes without.  Copies confirmed ones to /verif/seeded/<id>/."""
 import json, os, shutil, subprocess, sys
-SRC = "/tmp/mut"
+SRC = os.environ.get("SEED_SRC", "/tmp/mut")
 WT = "/tmp/seedcheck"
 def sh(cmd, cwd=None, env=None):
     p = subprocess.run(cmd, shell=True, cwd=cwd, env=env, stdout=subprocess.PIPE, stderr=subprocess.STDOUT, text=True)
@@ -15,7 +15,7 @@ def main():
     env = dict(os.environ, PYTHONPATH=WT, PYTHONDONTWRITEBYTECODE="1", MPLBACKEND="Agg")
     results = {}
     for p in props:
-        for m in ("m1", "m2"):
+        for m in sorted(x for x in os.listdir(f"{SRC}/{p}/_out") if os.path.isdir(f"{SRC}/{p}/_out/{x}")):
             d = f"{SRC}/{p}/_out/{m}"
             if not os.path.exists(f"{d}/patch.diff"):
                 continue
